@@ -13,34 +13,44 @@ def decCond : Sx → Option (Lex.Str × Bool)
   | .list [n, b] => do pure ((← n.toStr?).toList, ← b.toBool?)
   | _ => none
 
+def decConst : Sx → Option (Lex.Str × String)
+  | .list [k, v] => do pure ((← k.toStr?).toList, ← v.toStr?)
+  | _ => none
+
 def encVal : Val → Sx
   | .str s => .list [.atom "str", .str s]
   | .obj i _ => .list [.atom "obj", Sx.ofNat i]
 
-/-- `(native-tpl cfg "source" ((name val)…) ((name bool)…))` → `(ok (piece…) result)` | `(oom)` | `(syntax-error)`;
-    `result` as for `native`: `none` | `(value id)` | `(parse "text")`.
+/-- `(native-tpl cfg "source" ((name val)…) ((name bool)…) ((key "text")…))` →
+    `(ok (piece…) result (assumed…))` | `(oom)` | `(syntax-error)`;
+    `result` as for `native`: `none` | `(value id)` | `(parse "text")`; the last argument names the compile-time constant
+    expressions (token texts joined) with their documented text; `assumed` lists macro results the model took to be text
+    (the harness confirms with Python's `literal_eval` that they are not literals, else the case is out of model).
     The pieces are the DOCUMENTED ones: the lexer model's data tokens are never empty and an empty data token is
     skipped by the parser (`guard = true`), whatever `Gen/NativeGuards.lean` reads from the changed source. -/
+def run (cfg src : Sx) (vars conds consts : List Sx) : Sx :=
+  match JinjaV.Wire.Lex.decCfg cfg, src.toStr?, Sx.mapM? decVar vars, Sx.mapM? decCond conds, Sx.mapM? decConst consts with
+  | some cfg, some src, some vars, some conds, some consts =>
+    if !cfg.Valid then Sx.oom else
+    match JinjaV.Lex.tokeniter cfg src.toList with
+    | .ok toks =>
+      match piecesWith true (wrap toks) vars conds consts with
+      | some (ps, assumed) =>
+        let r : Sx := match nativeConcat (fun _ => (none : Option Unit)) false ps with
+          | .none => .atom "none"
+          | .value (.obj i _) => .list [.atom "value", Sx.ofNat i]
+          | .value (.str s) => .list [.atom "parse", .str s]
+          | .text raw => .list [.atom "parse", .str raw]
+          | .literal _ => .atom "bad"
+        .list [.atom "ok", .list (ps.map encVal), r, .list (assumed.map Sx.str)]
+      | none => Sx.oom
+    | .syntaxError _ _ _ => .list [.atom "syntax-error"]
+    | .fuel _ => Sx.oom
+  | _, _, _, _, _ => Sx.bad
+
 def handle : List Sx → Sx
-  | [cfg, src, .list vars, .list conds] =>
-    match JinjaV.Wire.Lex.decCfg cfg, src.toStr?, Sx.mapM? decVar vars, Sx.mapM? decCond conds with
-    | some cfg, some src, some vars, some conds =>
-      if !cfg.Valid then Sx.oom else
-      match JinjaV.Lex.tokeniter cfg src.toList with
-      | .ok toks =>
-        match pieces true (wrap toks) vars conds with
-        | some ps =>
-          let r : Sx := match nativeConcat (fun _ => (none : Option Unit)) false ps with
-            | .none => .atom "none"
-            | .value (.obj i _) => .list [.atom "value", Sx.ofNat i]
-            | .value (.str s) => .list [.atom "parse", .str s]
-            | .text raw => .list [.atom "parse", .str raw]
-            | .literal _ => .atom "bad"
-          .list [.atom "ok", .list (ps.map encVal), r]
-        | none => Sx.oom
-      | .syntaxError _ _ _ => .list [.atom "syntax-error"]
-      | .fuel _ => Sx.oom
-    | _, _, _, _ => Sx.bad
+  | [cfg, src, .list vars, .list conds] => run cfg src vars conds []
+  | [cfg, src, .list vars, .list conds, .list consts] => run cfg src vars conds consts
   | _ => Sx.bad
 
 /-- request names served by this module (collected into `JinjaV.Wire.All` by tools/gen_wire_all.py) -/
